@@ -229,6 +229,11 @@ fn noise_node(ctx: &Ctx, w: i32, h: i32) -> BoxedStrategy<Node> {
             (3.0f32..40.0, 0.0f32..fh, 1.0f32..20.0, 1.0f32..20.0).prop_map(move |(x, y, sw, sh)| PathSpec::rect(fw + x, y, sw, sh)),
             Just(PathSpec { ops: vec![], evenodd: false }),
             (0.0f32..fw, 0.0f32..fh).prop_map(|(x, y)| PathSpec { ops: vec![POp::M(x, y), POp::L(x + 5.0, y), POp::L(x - 3.0, y), POp::Z], evenodd: false }),
+            // rectangles without width or without height, on the surface, at whole and fractional positions
+            (0.0f32..fw, 0.0f32..fh, 1.0f32..12.0, any::<bool>(), any::<bool>()).prop_map(|(x, y, l, vertical, whole)| {
+                let (x, y) = if whole { (x.floor(), y.floor()) } else { (x, y) };
+                if vertical { PathSpec::rect(x, y, 0.0, l) } else { PathSpec::rect(x, y, l, 0.0) }
+            }),
         ]
     };
     let _ = ctx;
@@ -300,7 +305,10 @@ pub fn strategy(ctx: &Ctx, maxlen: usize) -> BoxedStrategy<Case> {
                 })
             });
             let clear0 = Just(Node::Op(Op::Clear(0)));
-            let item = prop_oneof![10 => regular, 8 => noise_node(&ctx2, w, h), 4 => headless, 6 => band, 2 => xf, 3 => surfop, 1 => clear0];
+            // a layer group holding nothing but calls that draw nothing, under a blend mode for which even an empty
+            // layer is not a no-op (it erases what lies under it): popping it must not depend on those calls
+            let hollow = (alpha_f(), prop::sample::select(vec![1u8, 2, 5, 6, 7, 10, 10, 10]), prop::collection::vec(noise_node(&ctx2, w, h), 0..=2)).prop_map(|(o, b, kids)| Node::Layer(Fl(o), b, kids));
+            let item = prop_oneof![10 => regular, 8 => noise_node(&ctx2, w, h), 4 => headless, 6 => band, 2 => xf, 3 => surfop, 1 => clear0, 2 => hollow];
             (Just((w, h)), prop_oneof![2 => init_pixels(w, h), 1 => Just(vec![])], prop::collection::vec(item, 4..=maxlen))
         })
         .prop_map(|((w, h), init, nodes)| Case { w, h, init, nodes })
